@@ -53,6 +53,9 @@ use vcommon::*;
 const MIB: usize = 1024 * 1024;
 /// attempts on the dead endpoint in a row without any healthy progress that count as "blocked"
 const DEAD_K: usize = 5;
+/// attempts of the reference emitter (each one request timeout + back-off apart) that have to begin after
+/// a request started to hang, without that request being attempted again, to count as "never retried"
+const STALL_K: usize = 5;
 
 #[derive(Clone, Copy, Debug, PartialEq, Eq, Hash)]
 enum EvKind {
@@ -169,12 +172,19 @@ fn gen_fault(g: &mut Rng, transport: Transport, stalls_left: &mut u32) -> Decisi
                     Decision::Status(*g.pick(&[301u16, 400, 404, 429, 500, 502, 503]))
                 }
             }
-            2 => Decision::Stall,
+            2 => {
+                if g.bool() {
+                    Decision::Stall
+                } else {
+                    // the response begins and then hangs
+                    Decision::StallAt(*g.pick(&Phase::ALL), *g.pick(&[200u16, 200, 503]))
+                }
+            }
             3 => Decision::DropOnAccept,
             4 => Decision::DropBeforeBody,
             _ => Decision::DropAfterRead,
         };
-        if d == Decision::Stall {
+        if d.is_stall() {
             if *stalls_left == 0 {
                 continue;
             }
@@ -250,9 +260,25 @@ fn generate(seed: u64, case: u64, o: &Opts) -> Scenario {
                     Decision::DropAfterRead,
                     Decision::GrpcStatus(8, GrpcForm::TrailersOnly),
                     Decision::Status(502),
+                    Decision::StallAt(Phase::AfterHeaders, 200),
+                    Decision::StallAt(Phase::InBody, 200),
+                    Decision::StallAt(Phase::BeforeTrailers, 200),
                 ]
             } else {
-                &[Decision::Status(503), Decision::Status(301), Decision::Stall, Decision::DropOnAccept, Decision::DropBeforeBody, Decision::DropAfterRead, Decision::Status(429)]
+                &[
+                    Decision::Status(503),
+                    Decision::Status(301),
+                    Decision::Stall,
+                    Decision::DropOnAccept,
+                    Decision::DropBeforeBody,
+                    Decision::DropAfterRead,
+                    Decision::Status(429),
+                    Decision::StallAt(Phase::InHead, 200),
+                    Decision::StallAt(Phase::AfterHeaders, 200),
+                    Decision::StallAt(Phase::AfterHeaders, 503),
+                    Decision::StallAt(Phase::InBody, 200),
+                    Decision::StallAt(Phase::InBody, 503),
+                ]
             };
             let forced = menu[(case / 3) as usize % menu.len()];
             let at = (case / 3 / menu.len() as u64 % 2) as usize;
@@ -351,6 +377,65 @@ fn fault_classes(records: &[Record], s: Signal) -> String {
     }
 }
 
+/// A request that hangs (at any phase) and is not attempted again although the reference emitter - same
+/// process, same hooked request timeout, its collector stalls everything - has begun `STALL_K` further
+/// attempts since. Logical progress, not a deadline: each of those attempts is one elapsed request timeout.
+fn never_retried<'a>(records: &'a [Record], metronome: &[Record]) -> Option<(&'a Record, usize)> {
+    for rec in records.iter().filter(|r| r.decision.is_stall() && !r.acked_by_status_line()) {
+        let Some(t0) = rec.responding.or(rec.body_read) else { continue };
+        if records.iter().any(|n| n.endpoint == rec.endpoint && n.seq > rec.seq) {
+            continue;
+        }
+        if records.iter().filter(|n| n.endpoint == rec.endpoint && !n.acked()).count() > 9 {
+            continue;
+        }
+        let m = metronome.iter().filter(|a| a.received > t0).count();
+        if m >= STALL_K {
+            return Some((rec, m));
+        }
+    }
+    None
+}
+
+/// A second, independent emitter whose collector never answers: its attempts tick once per request
+/// timeout (+ back-off) and serve as the logical clock for `never_retried`.
+struct Metronome {
+    col: Collector,
+    otlp: emit_otlp::Otlp,
+    n: std::cell::Cell<u64>,
+}
+
+impl Metronome {
+    fn start() -> Metronome {
+        let col = Collector::start(vec![EndpointCfg { signal: Signal::Logs, wire: Wire::Http1, listen: true, script: vec![Decision::Stall; 400] }]);
+        let otlp = build_otlp(&col, Transport::HttpProto, false, Signal::Logs.bit());
+        let m = Metronome { col, otlp, n: std::cell::Cell::new(0) };
+        m.feed();
+        m
+    }
+
+    /// Let the reference emitter finish before its collector's port is released: a dropped emitter keeps
+    /// retrying what is queued, and a port that is free again may be handed to another scenario's collector.
+    fn stop(self) {
+        self.col.set_repeat(Signal::Logs, Some(Decision::Ack(200)));
+        if self.otlp.blocking_flush(Duration::from_secs(20)) {
+            drop(self.otlp);
+            drop(self.col);
+        } else {
+            // keep the port reserved for the rest of the process
+            std::mem::forget(self.otlp);
+            std::mem::forget(self.col);
+        }
+    }
+
+    /// One more event = one more batch = a fresh retry budget once the current batch is given up.
+    fn feed(&self) {
+        let n = self.n.get();
+        self.n.set(n + 1);
+        emit_ev(&self.otlp, &Ev { vid: 9_000_000_000 + n, kind: EvKind::Log, pad: 0 }, "");
+    }
+}
+
 fn run(r: &mut Report, sc: &Scenario) {
     r.eval();
     let sj = sc.json();
@@ -379,6 +464,8 @@ fn run(r: &mut Report, sc: &Scenario) {
     let col = Collector::start(cfgs);
     let otlp = build_otlp(&col, sc.transport, sc.gzip, sc.subset);
     let live = sc.live();
+    let metronome = if sc.scripts.iter().flatten().any(|d| d.is_stall()) { Some(Metronome::start()) } else { None };
+    let mut hung = false;
 
     let max_pad = sc.events.iter().map(|e| e.pad).max().unwrap_or(0);
     let pad_src: String = {
@@ -452,9 +539,13 @@ fn run(r: &mut Report, sc: &Scenario) {
             }
         }
         col.release_gate();
+        if let Some(m) = &metronome {
+            m.feed();
+        }
 
-        // ---- with a signal out: watch progress before flushing (flush waits signal by signal) ----
-        if sc.dead.is_some() && arrived {
+        // ---- with a signal out, or with requests that will hang: watch progress before flushing
+        // (flush waits signal by signal, and would wait its whole timeout for a request that is never retried) ----
+        if (sc.dead.is_some() || metronome.is_some()) && arrived {
             let t0 = Instant::now();
             let wanted: Vec<u64> = sc.events.iter().chain(primers.iter()).filter(|e| expected_signal(e.kind, sc.subset).map(|s| live.contains(&s)).unwrap_or(false)).map(|e| e.vid).collect();
             loop {
@@ -471,6 +562,13 @@ fn run(r: &mut Report, sc: &Scenario) {
                 if n_acked == wanted.len() {
                     break;
                 }
+                if let Some(m) = &metronome {
+                    if never_retried(&col.records(), &m.col.records()).is_some() {
+                        // judged below on the recorded timeline
+                        hung = true;
+                        break;
+                    }
+                }
                 if t0.elapsed() > Duration::from_secs(20) {
                     // not a verdict: rule 6 below judges the recorded timeline
                     break;
@@ -481,7 +579,7 @@ fn run(r: &mut Report, sc: &Scenario) {
 
         flush_call = stamp();
         // (after a watchdog the scenario is inconclusive whatever flush says: do not wait long for it)
-        flushed = otlp.blocking_flush(Duration::from_secs(if arrived { 40 } else { 1 }));
+        flushed = otlp.blocking_flush(Duration::from_secs(if arrived && !hung { 40 } else { 1 }));
         flush_ret = stamp();
         stop.store(true, Ordering::SeqCst);
     });
@@ -495,6 +593,25 @@ fn run(r: &mut Report, sc: &Scenario) {
 
     // ---- decode everything that was read ----
     // per record: vid set (None = body not read)
+    // requests from somebody else (another scenario's emitter still retrying towards a port that this
+    // collector was given afterwards) are a harness matter, never a verdict - and they have eaten script
+    // decisions, so nothing here can be judged
+    let known: BTreeSet<u64> = sc.events.iter().map(|e| e.vid).chain((0..3).map(|i| sc.case * 10_000 + i)).collect();
+    let foreign = records.iter().filter(|rec| rec.body.is_some() && rec.note.is_none()).any(|rec| {
+        let as_named = rec.items().ok();
+        // a foreign request may also be for another signal than the endpoint's: try the endpoint's decoder too
+        as_named.map(|items| items.iter().filter_map(|i| i.vid()).any(|v| !known.contains(&v))).unwrap_or(false)
+    });
+    if foreign {
+        if let Some(m) = metronome {
+            m.stop();
+        }
+        r.observe("scenarios-inconclusive", 1);
+        r.observe("scenarios-with-foreign-requests", 1);
+        r.inconclusive("a collector received requests that were not sent by its scenario's emitter (port handed over while another emitter was still retrying); scenario not judged");
+        return;
+    }
+
     let mut vidsets: HashMap<usize, BTreeSet<u64>> = HashMap::new();
     for rec in &records {
         if rec.decision == Decision::DropOnAccept && rec.path.is_empty() {
@@ -706,6 +823,43 @@ fn run(r: &mut Report, sc: &Scenario) {
         }
     }
 
+    // ---- rule 7: a request that hangs - at whatever phase of the response - is given up at the request
+    // timeout and sent again ----
+    if let Some(m) = &metronome {
+        let ticks = m.col.records();
+        r.observe("reference-emitter-attempts", ticks.len() as u64);
+        for rec in records.iter().filter(|rec| rec.decision.is_stall()) {
+            let phase = rec.decision.stall_phase().unwrap_or("?");
+            r.observe(&format!("stall-hit:{}:phase={}", if rec.wire == Wire::Grpc { "grpc" } else { "http1" }, phase), 1);
+            if rec.acked_by_status_line() {
+                r.observe("stalled-after-a-2xx-status-line:counted-as-acknowledged", 1);
+                if records.iter().any(|n| n.endpoint == rec.endpoint && n.seq > rec.seq && vidsets.get(&n.idx).is_some() && vidsets.get(&n.idx) == vidsets.get(&rec.idx)) {
+                    r.observe("stalled-after-a-2xx-status-line:sent-again-anyway", 1);
+                }
+            } else if records.iter().any(|n| n.endpoint == rec.endpoint && n.seq > rec.seq) {
+                r.observe("stalled-requests-attempted-again", 1);
+            }
+        }
+        if let Some((rec, ticks_since)) = never_retried(&records, &ticks) {
+            r.violation(
+                &format!("C12:stalled-request-never-retried:{}:phase={}", tname, rec.decision.stall_phase().unwrap_or("?")),
+                &format!(
+                    "request #{} on {} hangs ({}) since stamp {:?}; the reference emitter has begun {} further attempts (one request timeout each) since, but the request was neither given up nor sent again{}",
+                    rec.seq,
+                    rec.endpoint.name(),
+                    rec.decision.name(),
+                    rec.responding.or(rec.body_read),
+                    ticks_since,
+                    if rec.done.is_none() { " (its connection / stream is still open)" } else { "" }
+                ),
+                case_json(json!({"stalled": rec.brief(), "reference_attempt_stamps": ticks.iter().map(|t| t.received).collect::<Vec<_>>(), "flush": flushed})),
+            );
+        }
+    }
+    if let Some(m) = metronome {
+        m.stop();
+    }
+
     if let Some(w) = watchdog {
         r.observe("scenarios-inconclusive", 1);
         r.inconclusive(format!("watchdog: {}", w));
@@ -860,17 +1014,6 @@ fn run(r: &mut Report, sc: &Scenario) {
     if nothing_failed {
         r.observe("scenarios-judged-exactly-once", 1);
     }
-    // vids nobody emitted
-    let known: BTreeSet<u64> = sc.events.iter().chain(primers.iter()).map(|e| e.vid).collect();
-    for (idx, set) in &vidsets {
-        if let Some(v) = set.iter().find(|v| !known.contains(v)) {
-            r.violation(
-                &format!("C12:unknown-vid-exported:{}", tname),
-                &format!("a request carries vid {} which was not emitted in this scenario", v),
-                case_json(records[*idx].brief()),
-            );
-        }
-    }
     r.observe("scenarios-decided", 1);
     if r.wants_sample() && (consumed > 0 || multi) && sc.case < 40 {
         let reqs: Vec<Json> = records
@@ -882,6 +1025,163 @@ fn run(r: &mut Report, sc: &Scenario) {
     }
     drop(otlp);
     drop(col);
+}
+
+// ---------------------------------------------------------------------------
+// retry-budget sequences: a batch that is given up, then a batch that fails once
+// ---------------------------------------------------------------------------
+
+fn kind_for(s: Signal) -> EvKind {
+    match s {
+        Signal::Logs => EvKind::Log,
+        Signal::Traces => EvKind::Span,
+        Signal::Metrics => EvKind::Metric,
+    }
+}
+
+/// Batch A fails on every attempt until the emitter gives it up (the collector just keeps failing and
+/// counts; the budget is whatever is observed). Then batch B fails once, on its first attempt, and is
+/// acknowledged afterwards. B has no failure history of its own: it must be sent again and acknowledged
+/// before flush returns true - whether A was on the same signal or another one, before B or at the same time.
+fn run_budget(r: &mut Report, seed: u64, case: u64, thorough: bool) {
+    r.eval();
+    let mut g = Rng::stream(seed, &[12, 3, case]);
+    let transport = Transport::ALL[(case % 3) as usize];
+    let layout = ["same-signal", "other-signal-afterwards", "other-signal-meanwhile"][(case / 3 % 3) as usize];
+    let tname = transport.name();
+    let grpc = transport == Transport::Grpc;
+    let x = Signal::ALL[(case / 9 % 3) as usize];
+    let y = if layout == "same-signal" { x } else { Signal::ALL[((case / 9 + 1 + case / 27 % 2) % 3) as usize] };
+    let subset = x.bit() | y.bit() | if g.chance(1, 3) { 7 } else { 0 };
+    let cheap: Vec<Decision> = if grpc {
+        vec![Decision::GrpcStatus(14, GrpcForm::Trailers), Decision::GrpcStatus(14, GrpcForm::TrailersOnly), Decision::Status(503), Decision::DropOnAccept, Decision::DropBeforeBody, Decision::DropAfterRead]
+    } else {
+        vec![Decision::Status(503), Decision::Status(429), Decision::DropOnAccept, Decision::DropBeforeBody, Decision::DropAfterRead, Decision::StallAt(Phase::AfterHeaders, 503)]
+    };
+    let mut all = cheap.clone();
+    all.push(Decision::Stall);
+    if grpc {
+        all.extend([Decision::StallAt(Phase::AfterHeaders, 200), Decision::StallAt(Phase::InBody, 200), Decision::StallAt(Phase::BeforeTrailers, 200)]);
+    } else {
+        all.push(Decision::StallAt(Phase::InHead, 200));
+    }
+    // A's failure kind walks the cheap kinds (a hanging kind would cost the whole budget in timeouts: thorough only)
+    let fa = if thorough && case % 11 == 10 { Decision::Stall } else { cheap[(case / 27) as usize % cheap.len()] };
+    // B's single failure walks every kind
+    let fb = all[(case / 3) as usize % all.len()];
+    let case_json = |detail: Json| {
+        json!({"seed": seed, "case": case, "kind": "retry-budget", "transport": tname, "layout": layout, "subset": subset_name(subset),
+            "batch_a": {"signal": x.name(), "every_attempt": fa.name()}, "batch_b": {"signal": y.name(), "first_attempt": fb.name()}, "detail": detail})
+    };
+
+    let cfgs = Signal::ALL.into_iter().filter(|s| subset & s.bit() != 0).map(|s| EndpointCfg { signal: s, wire: transport.wire(), listen: true, script: vec![] }).collect();
+    let col = Collector::start(cfgs);
+    let otlp = build_otlp(&col, transport, g.bool(), subset);
+    let pad = "x".repeat(64);
+    let n_a = 1 + g.below(5);
+    let n_b = 1 + g.below(5);
+    let a: Vec<Ev> = (0..n_a).map(|k| Ev { vid: 5_000_000_000 + case * 1_000 + k, kind: kind_for(x), pad: g.usize(64) }).collect();
+    let b: Vec<Ev> = (0..n_b).map(|k| Ev { vid: 5_000_000_000 + case * 1_000 + 500 + k, kind: kind_for(y), pad: g.usize(64) }).collect();
+
+    col.set_repeat(x, Some(fa));
+    for ev in &a {
+        emit_ev(&otlp, ev, &pad);
+    }
+    let meanwhile = layout == "other-signal-meanwhile";
+    if meanwhile {
+        col.push_script(y, &[fb]);
+        for ev in &b {
+            emit_ev(&otlp, ev, &pad);
+        }
+    }
+    // flush returns once A has had its final attempt
+    if !otlp.blocking_flush(Duration::from_secs(60)) {
+        r.observe("budget:scenarios-inconclusive", 1);
+        r.inconclusive("retry-budget scenario: blocking_flush returned false (60 s) while a batch was failing on every attempt");
+        return;
+    }
+    col.settle();
+    let attempts_a = col.records().iter().filter(|rec| rec.endpoint == x && rec.decision == fa || (rec.endpoint == x && fa == Decision::DropOnAccept && rec.decision == Decision::DropBeforeBody)).count();
+    r.observe(&format!("budget:attempts-until-given-up={}", attempts_a), 1);
+    if attempts_a < 2 {
+        r.observe("budget:scenarios-inconclusive", 1);
+        r.inconclusive("retry-budget scenario: the failing batch was attempted fewer than 2 times");
+        return;
+    }
+    col.set_repeat(x, None);
+    if !meanwhile {
+        col.push_script(y, &[fb]);
+        for ev in &b {
+            emit_ev(&otlp, ev, &pad);
+        }
+    }
+    let flushed = otlp.blocking_flush(Duration::from_secs(60));
+    let flush_ret = stamp();
+    if !flushed {
+        r.observe("budget:scenarios-inconclusive", 1);
+        r.inconclusive("retry-budget scenario: the second blocking_flush returned false (60 s)");
+        return;
+    }
+    col.settle();
+    let records = col.records();
+    let mut acked: BTreeSet<u64> = BTreeSet::new();
+    let mut carried: BTreeSet<u64> = BTreeSet::new();
+    for rec in &records {
+        if rec.body.is_none() || (rec.peer_gone && rec.note.is_some()) {
+            continue;
+        }
+        if let Ok(items) = rec.items() {
+            for v in items.iter().filter_map(|i| i.vid()) {
+                carried.insert(v);
+                if rec.acked() && rec.responding.map(|t| t < flush_ret).unwrap_or(false) {
+                    acked.insert(v);
+                }
+            }
+        }
+    }
+    let fb_hit = records.iter().any(|rec| rec.endpoint == y && (rec.decision == fb || (fb == Decision::DropOnAccept && rec.decision == Decision::DropBeforeBody)));
+    r.observe("budget:scenarios-decided", 1);
+    r.observe("budget:requests-recorded", records.len() as u64);
+    if fb_hit {
+        r.observe(&format!("budget:first-attempt-failure-hit:{}", fb.class()), 1);
+        r.nontrivial(&("retry-budget", tname, layout, fa.class(), fb.class(), attempts_a));
+    }
+    let missing: Vec<u64> = b.iter().map(|e| e.vid).filter(|v| !acked.contains(v)).collect();
+    r.observe("budget:vids-of-the-second-batch-accounted", (b.len() - missing.len()) as u64);
+    if !missing.is_empty() && !(fb.http1_2xx_head_then_stall() && !grpc) {
+        r.violation(
+            &format!("C12:first-failure-after-a-given-up-batch-not-retried:{}:{}:after={}", tname, layout, fb.class()),
+            &format!(
+                "batch A on {} was given up after {} attempts ({} every time); batch B on {} then failed once ({}) and {} of its {} events were never acknowledged although flush returned true ({} of them were in some request)",
+                x.name(),
+                attempts_a,
+                fa.name(),
+                y.name(),
+                fb.name(),
+                missing.len(),
+                b.len(),
+                missing.iter().filter(|v| carried.contains(v)).count()
+            ),
+            case_json(json!({"missing": missing, "requests": records.iter().map(|rec| rec.brief()).collect::<Vec<_>>()})),
+        );
+    }
+    if r.wants_sample() && case < 2 {
+        let reqs: Vec<Json> = records.iter().map(|rec| json!({"endpoint": rec.endpoint.name(), "seq": rec.seq, "decision": rec.decision.name(), "acked": rec.acked()})).collect();
+        let cj = case_json(json!({"attempts_until_given_up": attempts_a}));
+        r.sample(move || json!({"scenario": cj, "requests": reqs}));
+    }
+    drop(otlp);
+    drop(col);
+}
+
+/// `par_cases` hands out blocks of 16 cases; these scenarios spend their time waiting (back-off, request
+/// timeouts), so one scenario per block balances far better.
+fn spread(r: &mut Report, args: &Args, n: u64, case: impl Fn(u64, &mut Report) + Sync) {
+    par_cases(r, args, n * 16, |i, r| {
+        if i % 16 == 0 {
+            case(i / 16, r)
+        }
+    });
 }
 
 fn main() {
@@ -908,6 +1208,13 @@ fn main() {
         let case = load_replay(path);
         let c = case.get("case").and_then(|v| v.as_u64()).unwrap_or(0);
         let s = case.get("seed").and_then(|v| v.as_u64()).unwrap_or(seed);
+        if case.get("kind").and_then(|v| v.as_str()) == Some("retry-budget") {
+            for i in 0..3 {
+                run_budget(&mut r, s, c, args.thorough());
+                r.nontrivial(&("replay-run", i));
+            }
+            std::process::exit(r.finish());
+        }
         for i in 0..3 {
             let sc = generate(s, c, &opts);
             run(&mut r, &sc);
@@ -917,10 +1224,16 @@ fn main() {
     }
 
     let n = args.n(210, 8064);
-    par_cases(&mut r, &args, n, |i, r| {
+    spread(&mut r, &args, n, |i, r| {
         let sc = generate(seed, i, &opts);
         run(r, &sc);
     });
+    r.set("main_section_wall_s", json!(r.elapsed_s()));
+    // retry-budget sequences (3 transports x 3 layouts x 3 signals for the failing batch, every failure
+    // kind for the batch that follows)
+    let thorough = args.thorough();
+    let n_budget = args.n(54, 810);
+    spread(&mut r, &args, n_budget, |i, r| run_budget(r, seed, i, thorough));
     let inconclusive = r.observed.get("scenarios-inconclusive").copied().unwrap_or(0);
     if inconclusive * 5 > n {
         r.inconclusive(format!("{} of {} scenarios were inconclusive (flush false / watchdog): too many to call the run meaningful", inconclusive, n));
